@@ -240,7 +240,7 @@ func (b *Byz) alter(m *protocol.Message) *protocol.Message {
 		if len(apps) == 0 {
 			continue
 		}
-		n := apps[c.S.Draw(len(apps), "path")]
+		n := mut.PickNode(c.S, apps)
 		t2, res, ok := mut.Apply(c.S, mut.Clone(tree), n, op, b.bank)
 		if !ok {
 			continue
